@@ -43,7 +43,8 @@ func RecursiveGetExecutablePaths(dir string, excludedDirs ...string) ([]string, 
 
 		if f.IsDir() {
 			// Skip hidden and lib directories inside initial directory
-			if strings.HasPrefix(f.Name(), ".") || slices.Contains(excludedDirs, f.Name()) {
+			// (the initial directory itself is never skipped, whatever its name is).
+			if path != dir && (strings.HasPrefix(f.Name(), ".") || slices.Contains(excludedDirs, f.Name())) {
 				return filepath.SkipDir
 			}
 
